@@ -44,6 +44,8 @@ CORE_NAMES = {
     152: "C18: event announced an address outside the allow-list", 153: "C18: Members() lists an address outside the allow-list",
     160: "C06: suspicion timer registered iff suspect is broken", 161: "C06: declared dead before the minimum / still suspect after the maximum timeout",
     162: "C06: declared dead earlier than the confirmation schedule allows (accuser / duplicate / stale timer counted)",
+    163: "C06: a refutation accepted between the timeout's check and its death claim did not keep the peer",
+    66: "a claim processed between the two halves of the suspicion timeout: outcome differs from the model (timer_fire check; claim; do_dead at the checked incarnation)",
     170: "C09: a peer's dead/suspect hearsay removed a member directly",
 }
 FAMILIES["core"] = {
@@ -111,19 +113,25 @@ FAMILIES["stream"] = {
     "harness": COMMON + ["zz_vf_wire_test.go", "zz_vf_sites_test.go", "zz_vf_stream_test.go"], "test": "TestVfStream",
     "n": {"quick": 5, "thorough": 120}, "no_shrink": True,
     "env": {"VF_SHARD": "600"},
-    "codes": [(300, 300, ["C09"]), (301, 301, ["C12"]), (302, 305, ["C13"]), (306, 306, ["C14"]), (307, 308, ["C16"]),
+    "codes": [(300, 300, ["C09"]), (301, 301, ["C12"]), (302, 305, ["C13"]), (306, 306, ["C14"]), (307, 309, ["C16"]),
               (310, 329, ["C09"]), (330, 339, ["C15"])],
     "code_names": {1: "undecodable case", 60: "stream acted on although the framing layer yields no message", 61: "verifyProtocol result differs from the model",
                    62: "bytes written to the stream differ from the model's framing", 63: "panic outcome differs",
                    300: "C09: a state exchange cut before its end changed the receiving side",
                    301: "C12: the peer did not recover the complete message / state / payload from the stream",
-                   313: "C09: a side that vetoed / could not verify the exchange still handed the peer's application state to its delegate", 314: "C09: an exchange carrying another label changed the receiving side", 302: "C13: stream handler panicked", 303: "C13: undecodable stream changed membership", 304: "C13: connection left open",
+                   313: "C09: a side that vetoed / could not verify the exchange still handed the peer's application state to its delegate", 314: "C09: an exchange carrying another label changed the receiving side", 302: "C13: stream handler panicked", 303: "C13: undecodable stream changed membership", 304: "C13: connection left open (or the handler was still blocked on a stalled peer after TCPTimeout)",
                    305: "C13: declared size beyond the cap was not refused before reading the data",
                    306: "C14: tampered / foreign-key / removed-key stream had an effect", 307: "C16: stream carrying another label had an effect or got a reply",
                    308: "C16: a correctly labelled stream was not accepted (label header fragmented across reads)",
+                   309: "C16: adding the stream label header and removing it again did not give back the label and the payload (some fragmentation / read size)",
+                   65: "RemoveLabelHeaderFromStream differs from the Label model",
                    310: "C09: Join reported success but joiner and host do not list each other (and the host's members)",
                    311: "C09: host-side veto / incompatibility: Join succeeded one-sidedly (host replied before verifying and merging)",
                    312: "C09: failed Join changed the joiner's membership",
+                   315: "C09: an exchange that fails authentication (tampered, foreign / removed key, or sent in clear to a node that authenticates) changed the receiving side",
+                   316: "C09: a periodic push/pull between nodes whose version ranges do not overlap changed a side",
+                   317: "C09: a periodic push/pull succeeded but the two sides do not list each other's members",
+                   64: "a periodic push/pull between compatible nodes failed",
                    320: "C09: verifyProtocol differs from the range-intersection specification",
                    330: "C15: stream write does not open under the primary key with encryptMsg|length|label as associated data", 331: "C15: payload bytes visible in clear on the stream"},
     "assumptions": ["the msgpack layer below the framing (headers, node states) is not modelled: its effects are observed on the real nodes",
@@ -140,7 +148,8 @@ FAMILIES["probe"] = {
                    402: "C19: probe verdict differs from 'a matching ack arrived before the deadline (or the TCP fallback round-tripped)'",
                    403: "C19: health score moved by another amount than the probe outcome prescribes",
                    404: "C19: relayed ack does not carry the requester's sequence number", 405: "C19: relay reused the requester's sequence number",
-                   406: "C19: relay sent more than one ack / nack, or both", 407: "C19: relay outcome differs from the model"},
+                   406: "C19: relay sent more than one ack / nack, or both", 407: "C19: relay outcome differs from the model",
+                   408: "C19: an ack / nack for a number nobody awaits a nack for made the packet handler panic"},
     "assumptions": ["arrivals never coincide with the probe timeout or deadline (odd microsecond offsets): equal-instant ordering is scheduler dependent",
                     "random peer selection (kRandomNodes) enters through what the transport observed"],
 }
@@ -152,7 +161,8 @@ FAMILIES["life"] = {
     "codes": [(500, 509, ["C20"])],
     "code_names": {1: "undecodable case", 70: "panic outcome differs from the lifecycle model",
                    500: "C20: a public call panicked", 501: "C20: Leave / UpdateNode / another call blocked past its timeout",
-                   502: "C20: the network was used after Shutdown had returned", 503: "C20: background activity continued after Shutdown"},
+                   502: "C20: the network was used after Shutdown had returned", 503: "C20: background activity continued after Shutdown",
+                   504: "C20: Shutdown is not idempotent: the transport was shut down more than once"},
     "assumptions": ["data races, deadlocks and goroutine termination are runtime behaviours: observed (bubble exit, -race stress in the thorough tier), not proved",
                     "the real-socket half of 'nothing reaches the network after Shutdown' uses loopback sockets outside the virtual-time bubble"],
 }
@@ -167,6 +177,7 @@ FAMILIES["cluster"] = {
                    60: "probe cursor: the next probe differs from the Cursor model (stable membership)",
                    61: "probe cursor: the node list was reordered without a wrap", 62: "probe cursor: the model selects nobody but the implementation probed",
                    520: "C05: views did not converge within the settling time although the fresh-alive graph was connected when faults stopped",
+                   522: "C05: a node holds a record of a member at an incarnation above every counter that member ever reached (C05_claims_below_owner / C05_claims_below_history)",
                    521: "C05: views did not converge; the live nodes were connected through member lists but not through fresh Alive records (D-C05)",
                    530: "C03: a survivor that listed the crashed member delivered no leave event within the bound",
                    531: "C03: a survivor still lists the crashed member at the end",
